@@ -361,6 +361,27 @@ struct Typed<T: Payload> {
     fr: HashMap<u64, *mut Option<FutureReader<T>>>,
 }
 
+/// an operation on its way from one task to another
+struct Handoff {
+    op: Box<dyn DynOp>,
+    bkey: Option<u64>,
+    kind: &'static str,
+    told_dropped: bool,
+    /// the end the operation borrows (stream writer, stream reader, future writer slot, future reader slot), as addresses
+    slots: [usize; 4],
+    subtasks: Vec<*mut MySubtask>,
+}
+thread_local! { static HANDOFF: std::cell::RefCell<HashMap<u64, Handoff>> = std::cell::RefCell::new(HashMap::new()); }
+
+/// forget operations nobody took (end of a run)
+pub fn clear_handoff() {
+    HANDOFF.with(|m| {
+        for (_, h) in m.borrow_mut().drain() {
+            std::mem::forget(h);
+        }
+    });
+}
+
 pub struct Env {
     pub task: usize,
     p8: Typed<u8>,
@@ -641,6 +662,61 @@ impl Env {
                 uev(self.task, json!({"ev": "user.dropop", "op": k}));
                 self.ops.remove(&k);
                 uev(self.task, json!({"ev": "user.dropop.done", "op": k}));
+            }
+            // an in-flight operation is handed to another task of the same component (together with the end it borrows):
+            // the next poll happens there, so the operation has to move its registration (C18: "including when an
+            // operation moves between tasks")
+            "give" => {
+                let k = a["op"].as_u64().unwrap();
+                let Some(op) = self.ops.remove(&k) else {
+                    uev(self.task, json!({"ev": "user.noop", "what": "give", "op": k}));
+                    return false;
+                };
+                self.pending_now.remove(&k);
+                let bkey = self.borrows.remove(&k);
+                let mut h = Handoff { op, bkey, kind: "u8", told_dropped: false, slots: [0; 4], subtasks: std::mem::take(&mut self.subtasks) };
+                if let Some(b) = bkey {
+                    let key = b / 2;
+                    let s = key % 1000;
+                    h.kind = self.kinds.get(&key).copied().unwrap_or("u8");
+                    h.told_dropped = self.told_dropped.remove(&b);
+                    fn grab<T: Payload>(t: &mut Typed<T>, s: u64, fut: bool) -> [usize; 4] {
+                        if fut {
+                            [0, 0, t.fw.remove(&s).map(|p| p as usize).unwrap_or(0), t.fr.remove(&s).map(|p| p as usize).unwrap_or(0)]
+                        } else {
+                            [t.sw.remove(&s).map(|p| p as usize).unwrap_or(0), t.sr.remove(&s).map(|p| p as usize).unwrap_or(0), 0, 0]
+                        }
+                    }
+                    h.slots = if h.kind == "tracked" { grab(&mut self.pt, s, key >= 1000) } else { grab(&mut self.p8, s, key >= 1000) };
+                }
+                uev(self.task, json!({"ev": "user.give", "op": k}));
+                HANDOFF.with(|m| m.borrow_mut().insert(k, h));
+            }
+            "take" => {
+                let k = a["op"].as_u64().unwrap();
+                let Some(h) = HANDOFF.with(|m| m.borrow_mut().remove(&k)) else {
+                    uev(self.task, json!({"ev": "user.noop", "what": "take", "op": k}));
+                    return false;
+                };
+                if let Some(b) = h.bkey {
+                    let key = b / 2;
+                    let s = key % 1000;
+                    self.kinds.insert(key, h.kind);
+                    self.borrows.insert(k, b);
+                    if h.told_dropped {
+                        self.told_dropped.insert(b);
+                    }
+                    fn put<T: Payload>(t: &mut Typed<T>, s: u64, x: [usize; 4]) {
+                        if x[0] != 0 { t.sw.insert(s, x[0] as *mut StreamWriter<T>); }
+                        if x[1] != 0 { t.sr.insert(s, x[1] as *mut StreamReader<T>); }
+                        if x[2] != 0 { t.fw.insert(s, x[2] as *mut Option<FutureWriter<T>>); }
+                        if x[3] != 0 { t.fr.insert(s, x[3] as *mut Option<FutureReader<T>>); }
+                    }
+                    if h.kind == "tracked" { put(&mut self.pt, s, h.slots) } else { put(&mut self.p8, s, h.slots) }
+                }
+                self.subtasks.extend(h.subtasks);
+                self.ops.insert(k, h.op);
+                uev(self.task, json!({"ev": "user.take", "op": k}));
             }
             "wake" => {
                 uev(self.task, json!({"ev": "user.wake"}));
